@@ -24,6 +24,20 @@ use core::cmp::Ordering;
 #[cfg(feature = "f16")]
 use half::{bf16, f16};
 
+// Whether a converted value does not fit in `$Bits`. The overflow flag of the
+// conversion helper only counts bits, so a non-negative value that reaches the
+// sign bit of a signed `$Bits`, or a negative value cast to an unsigned `$Bits`,
+// overflows too.
+macro_rules! conv_overflows {
+    ($conv:expr, $Bits:ty) => {
+        $conv.overflow
+            || match $conv.bits {
+                Widest::Unsigned(bits) => (bits as $Bits).is_negative(),
+                Widest::Negative(bits) => !(bits as $Bits).is_negative(),
+            }
+    };
+}
+
 macro_rules! fixed_cmp_fixed {
     ($Lhs:ident($LhsLeEqU:ident), $Rhs:ident($RhsLeEqU:ident)) => {
         impl<FracLhs: $LhsLeEqU, FracRhs: $RhsLeEqU> PartialEq<$Rhs<FracRhs>> for $Lhs<FracLhs> {
@@ -38,7 +52,9 @@ macro_rules! fixed_cmp_fixed {
                     Widest::Unsigned(bits) => bits as <Self as Fixed>::Bits,
                     Widest::Negative(bits) => bits as <Self as Fixed>::Bits,
                 };
-                conv.dir == Ordering::Equal && !conv.overflow && rhs_bits == self.to_bits()
+                conv.dir == Ordering::Equal
+                    && !conv_overflows!(conv, <Self as Fixed>::Bits)
+                    && rhs_bits == self.to_bits()
             }
         }
 
@@ -55,7 +71,7 @@ macro_rules! fixed_cmp_fixed {
                     Self::FRAC_NBITS,
                     Self::INT_NBITS,
                 );
-                if conv.overflow {
+                if conv_overflows!(conv, <Self as Fixed>::Bits) {
                     return if rhs.to_bits().is_negative() {
                         Some(Ordering::Greater)
                     } else {
@@ -81,7 +97,7 @@ macro_rules! fixed_cmp_fixed {
                     Self::FRAC_NBITS,
                     Self::INT_NBITS,
                 );
-                if conv.overflow {
+                if conv_overflows!(conv, <Self as Fixed>::Bits) {
                     return !rhs.to_bits().is_negative();
                 }
                 let rhs_bits = match conv.bits {
@@ -195,7 +211,9 @@ macro_rules! fixed_cmp_float {
                     Widest::Unsigned(bits) => bits as <Self as Fixed>::Bits,
                     Widest::Negative(bits) => bits as <Self as Fixed>::Bits,
                 };
-                conv.dir == Ordering::Equal && !conv.overflow && rhs_bits == self.to_bits()
+                conv.dir == Ordering::Equal
+                    && !conv_overflows!(conv, <Self as Fixed>::Bits)
+                    && rhs_bits == self.to_bits()
             }
         }
 
@@ -226,7 +244,7 @@ macro_rules! fixed_cmp_float {
                     (true, false) => return Some(Ordering::Less),
                     _ => {}
                 }
-                if conv.overflow {
+                if conv_overflows!(conv, <Self as Fixed>::Bits) {
                     return if rhs_is_neg {
                         Some(Ordering::Greater)
                     } else {
@@ -254,7 +272,7 @@ macro_rules! fixed_cmp_float {
                     (true, false) => return true,
                     _ => {}
                 }
-                if conv.overflow {
+                if conv_overflows!(conv, <Self as Fixed>::Bits) {
                     return !rhs_is_neg;
                 }
                 let rhs_bits = match conv.bits {
@@ -301,7 +319,7 @@ macro_rules! fixed_cmp_float {
                     (true, false) => return true,
                     _ => {}
                 }
-                if conv.overflow {
+                if conv_overflows!(conv, <$Fix<Frac> as Fixed>::Bits) {
                     return lhs_is_neg;
                 }
                 let lhs_bits = match conv.bits {
